@@ -4,7 +4,7 @@ CFG = dict(
           "small-step model coq/Model/Server.v of one server connection (arbitrary peer, arbitrary handler behaviour, any "
           "interleaving); the model is run lock-step against the real goat.Server.Serve on every run.",
     props="Props/C12.v",
-    theorems=["C12_no_crash", "C12_stays_serving", "C12_never_stalls", "C12_dispatch_sound", "C12_dispatch_unary", "C12_dispatch_complete", "C12_dispatch_stream", "C12_reset", "C12_reset_accounting", "C12_reset_written", "C12_probe"],
+    theorems=["C12_no_crash", "C12_stays_serving", "C12_never_stalls", "C12_dispatch_sound", "C12_dispatch_unary", "C12_dispatch_complete", "C12_dispatch_stream", "C12_reset", "C12_reset_accounting", "C12_reset_written", "C12_probe", "C12_peer_cannot_stall"],
     imports=["Model.Method", "Model.Client", "Model.Server", "Check.ServerC", "Check.C12c"],
     case_type="c12case",
     find_bad_from="find_bad_from",
